@@ -16,7 +16,10 @@ class NumberType(Type):
             if other is None:
                 return self.value, None
             elif other.dtype is None:
+                # two literals: compare numbers, the right one expressed in the unit of the left one
                 self.value = float(self.value)
+                other.convert(self.unit)
+                other.value = float(other.value)
             else:
                 if other.dtype in [int,float]:
                     self.convert(other.unit)
